@@ -388,7 +388,7 @@ class Runtime:
                 th.sem.release()
         leaked = []
         for th in self.threads:
-            th.os_thread.join(timeout=2.0)
+            th.os_thread.join(timeout=15.0)
             if th.os_thread.is_alive():
                 leaked.append(th.name)
         monitor.detach(self)
